@@ -31,6 +31,8 @@ OPS = [
     (r"Composition::Conjunctive\(_\) => 1,", "Composition::Conjunctive(_) => 2,"), (r"\.take\(n\)", ".skip(n)"), (r"saturating_sub\(1\)", "saturating_sub(2)"),
     (r"AdjacentBoundary", "AdjacentZeroOrMore"), (r"SingularTree", "SingularZeroOrMore"),
     (r"has_root: true", "has_root: false"), (r"Separator\(_\)", "Wildcard(Tree { .. })"),
+    (r"LinkCycle \{ ref leaf, \.\. \} => Some\(leaf", "LinkCycle { ref root, .. } => Some(root"),
+    (r'is_not\("\*\$"\)', 'is_not("$")'), (r"\.filter\(\|token\| token\.is_capturing\(\)\)", ".filter(|token| !token.is_boundary())"),
 ]
 TARGETS = [
     ("src/token/variance/natural.rs", 206, 335, ["C10", "C09"]),
@@ -64,6 +66,9 @@ TARGETS = [
     ("src/token/mod.rs", 508, 546, ["C12"]),
     ("src/token/mod.rs", 194, 200, ["C17"]),
     ("src/token/walk.rs", 436, 467, ["C12", "C06"]),
+    ("src/lib.rs", 683, 693, ["C17"]),
+    ("src/walk/mod.rs", 244, 252, ["C20"]),
+    ("src/token/parse.rs", 372, 412, ["C06"]),
 ]
 
 def sh(cmd, cwd=None, env=None, timeout=7200):
